@@ -312,4 +312,109 @@ def pollStamps (t : Int) : Nat → List Int
   | n + 1 => (t + 1) :: pollStamps (t + 1) n
 
 
+/-! ### the generic-time definitions at `Int` are the model -/
+
+def toTimer (t : GTimer Int) : Timer := ⟨t.start, t.duration, t.stop⟩
+def toExch (e : GExch Int) : Exch :=
+  ⟨e.kind, e.timeout, toTimer e.timer, e.redoTimeout, toTimer e.redoTimer, e.tx, e.rx, e.done, e.failed, e.acked⟩
+def toWorld (w : GWorld Int) : World := ⟨w.stamp, w.ex.map toExch, w.queue⟩
+def toOp : GOp Int → Op
+  | .create k t r tx rx => .create k t r tx rx
+  | .start a => .start a
+  | .advance dt => .advance dt
+  | .process => .process
+  | .send via tx => .send via tx
+  | .receive rx => .receive rx
+  | .finish => .finish
+  | .fail => .fail
+  | .run => .run
+
+theorem gsend_int (e : GExch Int) (tx : Option Nat) :
+    toExch (gsend e tx).1 = (send (toExch e) tx).1 ∧ (gsend e tx).2 = (send (toExch e) tx).2 := by
+  unfold gsend send
+  cases tx <;> cases h : e.tx <;> simp [toExch, h]
+
+theorem gprocess_int (stamp : Int) (e : GExch Int) :
+    toExch (gprocess stamp e).1 = (process stamp (toExch e)).1 ∧ (gprocess stamp e).2 = (process stamp (toExch e)).2 := by
+  obtain ⟨k, T, ⟨ts, td, tp⟩, R, ⟨rs, rd, rp⟩, tx, rx, dn, fl, ak⟩ := e
+  have he : toExch ⟨k, T, ⟨ts, td, tp⟩, R, ⟨rs, rd, rp⟩, tx, rx, dn, fl, ak⟩ = ⟨k, T, ⟨ts, td, tp⟩, R, ⟨rs, rd, rp⟩, tx, rx, dn, fl, ak⟩ := rfl
+  rw [he]
+  unfold gprocess process
+  by_cases h1 : 0 < T ∧ tp ≤ stamp
+  · simp [Tick.pos, Tick.le, GTimer.expired, Timer.expired, toExch, toTimer, h1.1, h1.2, gfail, fail]
+  · have hc1 : ¬ (0 < T ∧ decide (tp ≤ stamp) = true) := by simpa using h1
+    by_cases h2 : 0 < R ∧ rp ≤ stamp
+    · have hc2 : (0 < R ∧ decide (rp ≤ stamp) = true) := by simpa using h2
+      cases tx <;>
+        simp [Tick.pos, Tick.le, Tick.add, GTimer.expired, Timer.expired, GTimer.restart, Timer.restart, toExch, toTimer,
+          h1, h2.1, h2.2, gsend, send] <;> rw [if_neg hc1] <;> simp
+    · have hc2 : ¬ (0 < R ∧ decide (rp ≤ stamp) = true) := by simpa using h2
+      simp [Tick.pos, Tick.le, GTimer.expired, Timer.expired, toExch, toTimer, h1, h2]
+
+theorem gstart_int (stamp : Int) (e : GExch Int) (arg : Option Nat) :
+    toExch (gstart stamp e arg).1 = (start stamp (toExch e) arg).1 ∧ (gstart stamp e arg).2 = (start stamp (toExch e) arg).2 := by
+  unfold gstart start
+  cases hk : e.kind with
+  | exchange => simp [toExch, hk, gprepStart, prepStart]
+  | exchanger =>
+    cases arg <;> cases htx : e.tx <;>
+      simp [toExch, toTimer, hk, gprepStart, prepStart, gsend, send, GTimer.restart, Timer.restart, Tick.add, htx]
+  | exchangent =>
+    cases arg <;> cases hrx : e.rx <;>
+      simp [toExch, toTimer, hk, gprepStart, prepStart, GTimer.restart, Timer.restart, Tick.add, hrx]
+
+theorem gcreate_int (v : Variant) (k : Kind) (stamp : Int) (t r : Option Int) (tx rx : Option Nat) :
+    (gcreate defsInt v k stamp t r tx rx).map toExch = create v k stamp t r tx rx := by
+  cases v <;> cases t <;> cases r <;>
+    simp [gcreate, create, defsInt, Except.map, toExch, toTimer, GTimer.new, Timer.new, Tick.abs, Tick.add]
+
+/-- **the `Int` instantiation of the generic definitions is the model the theorems are about** -/
+theorem gstep_int (v : Variant) (w : GWorld Int) (op : GOp Int) :
+    toWorld (gstep defsInt v w op).1 = (step v (toWorld w) (toOp op)).1 ∧
+    (gstep defsInt v w op).2 = (step v (toWorld w) (toOp op)).2 := by
+  cases op with
+  | create k t r tx rx =>
+    have h := gcreate_int v k w.stamp t r tx rx
+    simp only [gstep, step, toOp, toWorld]
+    cases hg : gcreate defsInt v k w.stamp t r tx rx with
+    | error err => rw [hg] at h; simp [Except.map] at h; simp [← h]
+    | ok e => rw [hg] at h; simp [Except.map] at h; simp [← h]
+  | advance dt => simp [gstep, step, toOp, toWorld, Tick.add]
+  | start arg =>
+    cases hex : w.ex with
+    | none => simp [gstep, step, toOp, toWorld, GWorld.call, World.call, hex]
+    | some e =>
+      have := gstart_int w.stamp e arg
+      simp [gstep, step, toOp, toWorld, GWorld.call, World.call, hex, this.1, this.2]
+  | process =>
+    cases hex : w.ex with
+    | none => simp [gstep, step, toOp, toWorld, GWorld.call, World.call, hex]
+    | some e =>
+      have := gprocess_int w.stamp e
+      simp [gstep, step, toOp, toWorld, GWorld.call, World.call, hex, this.1, this.2]
+  | send via tx =>
+    cases hex : w.ex with
+    | none => simp [gstep, step, toOp, toWorld, GWorld.call, World.call, hex]
+    | some e =>
+      have := gsend_int e tx
+      simp [gstep, step, toOp, toWorld, GWorld.call, World.call, hex, this.1, this.2]
+  | receive rx => cases hex : w.ex <;> simp [gstep, step, toOp, toWorld, GWorld.call, World.call, hex, toExch]
+  | finish => cases hex : w.ex <;> simp [gstep, step, toOp, toWorld, GWorld.call, World.call, hex, toExch]
+  | fail => cases hex : w.ex <;> simp [gstep, step, toOp, toWorld, GWorld.call, World.call, hex, toExch, gfail, fail]
+  | run => cases hex : w.ex <;> simp [gstep, step, toOp, toWorld, GWorld.call, World.call, hex, toExch]
+
+
+theorem grun_int (v : Variant) (ops : List (GOp Int)) : ∀ (w : GWorld Int),
+    toWorld (grun defsInt v w ops).1 = (run v (toWorld w) (ops.map toOp)).1 ∧
+    (grun defsInt v w ops).2 = (run v (toWorld w) (ops.map toOp)).2.map (·.out) := by
+  induction ops with
+  | nil => intro w; exact ⟨rfl, rfl⟩
+  | cons op ops ih =>
+    intro w
+    obtain ⟨h1, h2⟩ := gstep_int v w op
+    obtain ⟨i1, i2⟩ := ih (gstep defsInt v w op).1
+    simp only [grun, List.map_cons, run_cons]
+    rw [← h1, ← h2]
+    exact ⟨i1, by simp [i2]⟩
+
 end Ioflo.Exchange
